@@ -1,6 +1,8 @@
 """C08 - plain scalars are typed exactly by the YAML 1.1 rules, on load and on dump alike (regular-language obligations)."""
 import sys
 
+from sa import rules_registry as RREG
+from sa import rules_r6b as R6B
 from sa import report, rules_lang as RL, rules_repr as RR2, rules_emit as RE
 from sa import rules_extra as RX
 
@@ -39,6 +41,9 @@ def run(ctx, repo):
 
     ctx.call(RX.r_timestamp_exact, repo)
     ctx.call(RL.r_regex_linear, repo)
+    ctx.call(R6B.r_no_truncating_zip, repo, ['constructor', 'resolver', 'representer'])
+    ctx.call(RREG.r_cow, repo, only=['yaml_implicit_resolvers'])
+    ctx.call(R6B.r_merge_by_tag, repo)
 
 
 if __name__ == '__main__':
